@@ -185,8 +185,18 @@ def _test_excludes(ctx: Ctx, f: Func, test: ast.AST, pol: bool, base: Term, zero
             return any(_test_excludes(ctx, f, v, pol, base, zero_at) for v in test.values)
         return False
     if isinstance(test, ast.Compare) and len(test.ops) == 1:
-        l = base_offset(ctx.X.at(f, test.left))
-        r = base_offset(ctx.X.at(f, test.comparators[0]))
+        from ..util import module_const
+
+        def resolve(t):
+            # module-level numeric constants (Final) count as literals
+            if t[0] == "global":
+                v = module_const(ctx.repo, t[1])
+                if isinstance(v, (int, float)) and not isinstance(v, bool):
+                    return ("const", v)
+            return t
+
+        l = base_offset(resolve(ctx.X.at(f, test.left)))
+        r = base_offset(resolve(ctx.X.at(f, test.comparators[0])))
         from ..terms import _CMP
 
         op = _CMP.get(type(test.ops[0]), "?")
@@ -242,7 +252,7 @@ def check_division(ctx: Ctx, res: RuleResult, f: Func, node: ast.AST, divisor: a
             return
         res.add(f, node, "divisor is non-zero", False, "constant zero divisor")
         return
-    zero_at = -off
+    zero_at = -off if off else 0.0
     cfg = cfg_of(ctx.repo, f)
     nodes = cfg.node_containing(node)
     if not nodes:
@@ -375,6 +385,38 @@ class ExcFlow:
         res = list(best.values())
         self.memo[f.qualname] = res
         return res
+
+
+def abort_capable_nodes(ctx: Ctx, f: Func) -> set:
+    """CFG nodes of f that can actually raise OptimizationAborted: raise
+    statements of that class, calls whose callees let one escape, and calls of
+    user callbacks (evaluator, observers).  Exceptional edges of other nodes
+    carry other exception classes and never reach an abort handler."""
+    cache = ctx.__dict__.setdefault("_abort_nodes", {})
+    if f.qualname in cache:
+        return cache[f.qualname]
+    cfg = cfg_of(ctx.repo, f)
+    flow = ExcFlow(ctx, ABORT, user_callbacks_raise=True)
+    out = set()
+    for n in nodes_in(f, ast.Raise):
+        q = cfg._exc_qual(n.exc) if n.exc is not None else None
+        if n.exc is None or q is None or flow._is_exc(q):
+            out.update(cfg.node_containing(n))
+    for call, callees, _k in ctx.cg.all_callees(f):
+        if any(flow.escaping(g) for g in callees):
+            out.update(cfg.node_containing(call))
+    for g, call in ctx.cg.unresolved:
+        if g is f and _is_user_callback(ctx, f, call):
+            out.update(cfg.node_containing(call))
+    cache[f.qualname] = out
+    return out
+
+
+def abort_edges_only(ctx: Ctx, f: Func):
+    """edge filter for path queries about aborts: exceptional edges are
+    followed only from abort-capable nodes."""
+    capable = abort_capable_nodes(ctx, f)
+    return lambda a, b, lab: lab != "exc" or a in capable
 
 
 def _is_user_callback(ctx: Ctx, f: Func, call: ast.Call) -> bool:
